@@ -251,9 +251,9 @@ func (m *ringModel) nPositive(at ssa.Instruction) bool {
 func runC07(c *Ctx) {
 	P := c.P
 	c.Explanation = "Decides: (R-RING-NORM) in package queue every index into the ring buffer and every value stored to head is wrap-normalised with the length of the current buffer — a load of head, 0, len−1, x % len with x a sum of a normalised offset and non-negative terms, a conditional wrap x−len guarded by x ≥ len for x = head+n or head+n−1, a wrap to len−1 guarded by x < 0 for x = head−1, or a loop-carried combination of these — and every store to n is n+1 under n < len (or together with the growth append), n−1 under n ≠ 0, or 0; this is the inductive step of 0 ≤ head < len, 0 ≤ n ≤ len. (R-GROW-ROTATE) the buffer grows only with head = 0, established by the false edge of head > 0 or by slice.Rotate(vs, −head) followed by head = 0. (R-DIV-NONZERO) every % len(q.vs) is reached only with n > 0 (hence len > 0). (R-YIELD) Each is stoppable. Does NOT decide that the sequence equals the reference deque (order, loss, duplication across wrap and growth) nor Rotate's own correctness."
-	c.rule("R-RING-NORM", 20, "(a) every index into q.vs is normalised; (b) every store to head is normalised; (c) every store to n is n+1 under n<len or with growth, n-1 under n!=0, or 0; (d) replacing the buffer resets head and n")
-	c.rule("R-GROW-ROTATE", 2, "every path to the growth append has head == 0 (branch fact, or Rotate(vs, -head) then head = 0)")
-	c.rule("R-DIV-NONZERO", 4, "every % in package queue has divisor len(q.vs) reached only with n > 0")
+	c.rule("R-RING-NORM", 10, "(a) every index into q.vs is normalised; (b) every store to head is normalised; (c) every store to n is n+1 under n<len or with growth, n-1 under n!=0, or 0; (d) replacing the buffer resets head and n")
+	c.rule("R-GROW-ROTATE", 1, "every path to the growth append has head == 0 (branch fact, or Rotate(vs, -head) then head = 0)")
+	c.rule("R-DIV-NONZERO", 1, "every % in package queue has divisor len(q.vs) reached only with n > 0")
 	c.rule("R-YIELD", 1, "Queue.Each stops calling f once it returned false")
 	c.assume("struct invariant 0 <= head < len(vs) (when non-empty), 0 <= n <= len(vs): established by the zero value/constructors and preserved by obligations (b) and (c)")
 
@@ -291,6 +291,12 @@ func runC07(c *Ctx) {
 		name := fnName(fn)
 		allInstrs(fn, func(in ssa.Instruction) {
 			switch x := in.(type) {
+			case *ssa.Slice:
+				// reading a range of the ring buffer (other than the growth reslice w[:cap(w)]) is an idiom this rule cannot judge
+				if m.isLoad(x.X, m.vsF) {
+					c.sawFn(name)
+					c.undecided("R-RING-NORM", fmt.Sprintf("%s:slice %s", name, ksym(x)), x.Pos(), "a range of the ring buffer is sliced: whether the range is the live, wrap-aware region cannot be decided by the normalisation rule")
+				}
 			case *ssa.IndexAddr:
 				if !m.isLoad(x.X, m.vsF) {
 					return
